@@ -7,28 +7,29 @@
 From Coq Require Import ZArith NArith String List.
 Import ListNotations.
 From TP Require Import Base.PyVal Fields.FieldAst Fields.SetChain Fields.Doc Fields.Domain Fields.SetChainProofs
-  Schema.Draft4 Schema.ToSchema Schema.ToSchemaProofs.
+  Schema.Draft4 Schema.ToSchema Schema.ToSchemaProofs Schema.ToSchemaClassProofs
+  Gen.SchemaGuards Schema.SchemaGuardProofs.
 Local Open Scope string_scope.
 
 (* ------------------------------------------------------------------ full statements (Definitions) *)
 
 (* every mappable class exports a well-formed draft-4 document whose $refs resolve in its definitions *)
 Definition C08_wf_statement : Prop :=
-  forall e smap fuel c, schema_mappable e fuel c = true -> wf_doc (fix_doc (to_schema e smap fuel c)) = true.
+  forall ei e smap fuel c, schema_mappable ei e fuel c = true -> wf_doc (fix_doc (to_schema ei e smap fuel c)) = true.
 
 (* every value a mappable field accepts, serialized, validates against the field's exported schema *)
 Definition C08_complete_statement : Prop :=
-  forall re_match re_search e D ss f v nf j,
+  forall ei re_match re_search e D ss f v nf j,
     (forall p s, re_match p s = true -> re_search p s = true) ->
-    mappable f = true -> field_refs f = [] ->
-    vset re_match e f v = Ok nf -> ser re_match e ss f nf = Some j ->
-    valid4 re_search D (fdepth f + 40) (fix_dialect (fschema f)) j = true.
+    mappable ei f = true -> field_refs f = [] ->
+    vset re_match e f v = Ok nf -> ser ei re_match e ss f nf = Some j ->
+    valid4 re_search D (fdepth f + 40) (fix_dialect (fschema ei f)) j = true.
 
 (* converse on the exact sub-fragment: left to the differential (boundary documents, validator-accepts
    implies Deserializer-accepts); [deser] stands for the Deserializer *)
 Definition C08_exact_statement (exact : field -> bool) (deser : field -> pyval -> bool) : Prop :=
-  forall re_search D f j,
-    exact f = true -> valid4 re_search D (fdepth f + 40) (fix_dialect (fschema f)) j = true -> deser f j = true.
+  forall ei re_search D f j,
+    exact f = true -> valid4 re_search D (fdepth f + 40) (fix_dialect (fschema ei f)) j = true -> deser f j = true.
 
 (* ------------------------------------------------------------------ theorems *)
 
@@ -37,13 +38,34 @@ Definition C08_exact_statement (exact : field -> bool) (deser : field -> pyval -
    exclusiveMaximum without a maximum, sizes/multiplesOf in draft 4's domain, non-empty distinct enums, JSON
    bounds), the emitted schema, after the two dialect translations, is a well-formed draft-4 schema, and its
    $refs resolve in any definitions D that contain the referenced classes. *)
-Theorem C08_wf : forall D f,
-    fclean f = true ->
+Theorem C08_wf : forall ei D f,
+    fclean ei f = true ->
     (forall nm, In nm (field_refs f) -> alist_has D nm = true) ->
-    wf4 D (fix_dialect (fschema f)) = true.
+    wf4 D (fix_dialect (fschema ei f)) = true.
 Proof. exact fschema_wf. Qed.
 
+
+(* The "$ref resolves inside the returned definitions" clause, at the level of the whole exported document and for
+   EVERY class (no cleanliness hypothesis: it also holds of the classes whose export has other defects): if the
+   reference graph of the class is explored within the fuel (every referenced class exists), every $ref of the
+   top-level schema and of every definition has an entry in the returned definitions.  Induction over the fuel
+   of the definitions closure. *)
+Theorem C08_refs_resolve : forall ei e smap fuel c,
+    closed e fuel any_class (class_refs c) = true ->
+    doc_refs_resolve (fix_doc (to_schema ei e smap fuel c)) = true.
+Proof. exact refs_resolve. Qed.
+
+(* Well-formedness of the whole document (characterisation at class level): a class free of the characterised
+   defects, transitively through its references ([schema_clean]: clean fields, JSON defaults, a non-empty
+   duplicate-free "required" unless the class is a field wrapper), exports -- after the dialect translation -- a
+   well-formed draft-4 document all of whose $refs resolve. *)
+Theorem C08_wf_doc : forall ei e smap fuel c,
+    schema_clean ei e smap fuel c = true ->
+    wf_doc (fix_doc (to_schema ei e smap fuel c)) = true.
+Proof. exact clean_doc_wf. Qed.
+
 Section C08.
+  Variable ei : einfo_t.                                   (* enum classes: mixed-in primitive type, by-value flag *)
   Variable re_match re_search : N -> pystr -> bool.        (* oracles: re.match / re.search *)
   Hypothesis re_match_search : forall p s, re_match p s = true -> re_search p s = true.
   Variable e : env.
@@ -57,30 +79,84 @@ Section C08.
      options — nested to any depth), every value the documented rules accept with normal form nf, once
      serialized, validates against the exported schema (after the dialect translation), for every fuel
      above the nesting depth. *)
-  Theorem C08_complete : forall f, cfrag f = true -> forall v nf j n,
+  Theorem C08_complete : forall f, cfrag ei f = true -> forall v nf j n,
       docb re_match e f v = Some nf ->
-      ser re_match e ser_struct f nf = Some j ->
+      ser ei re_match e ser_struct f nf = Some j ->
       (fdepth f <= n)%nat ->
-      valid4 re_search D n (fix_dialect (fschema f)) j = true.
-  Proof. exact (fschema_complete re_match re_search re_match_search e D ser_struct). Qed.
+      valid4 re_search D n (fix_dialect (fschema ei f)) j = true.
+  Proof. exact (fschema_complete ei re_match re_search re_match_search e D ser_struct). Qed.
 
   (* the same for the code-shaped set-chain, on C02's domain (where vset and the documented rules agree) *)
-  Theorem C08_complete_vset : forall f, cfrag f = true -> forall v nf j n,
+  Theorem C08_complete_vset : forall f, cfrag ei f = true -> forall v nf j n,
       dom f v = true ->
       vset re_match e f v = Ok nf ->
-      ser re_match e ser_struct f nf = Some j ->
+      ser ei re_match e ser_struct f nf = Some j ->
       (fdepth f <= n)%nat ->
-      valid4 re_search D n (fix_dialect (fschema f)) j = true.
+      valid4 re_search D n (fix_dialect (fschema ei f)) j = true.
   Proof.
     intros f Hc v nf j n Hdom Hv Hs Hn.
-    apply (fschema_complete re_match re_search re_match_search e D ser_struct f Hc v nf j n); auto.
+    apply (fschema_complete ei re_match re_search re_match_search e D ser_struct f Hc v nf j n); auto.
     apply (vset_decision re_match e f v nf Hdom). exact Hv.
   Qed.
+  (* Completeness at class level (object form): properties under the RENAMED keys, "required" after renaming and
+     with the fields that have a default, additionalProperties.  For a class in object form whose fields are in the
+     completeness fragment and whose renamed keys are distinct, and an instance whose attributes hold normal forms
+     of their fields, with every required field and every field with a default present: the serialization
+     validates against the class schema. *)
+  Variable smap : pystr -> renames.
+  Theorem C08_class_complete : forall c attrs j fuel n,
+      find_class e (c_name c) = Some c ->
+      wrapper_form c = false ->
+      forallb (fun d => cfrag ei (fd_field d)) (c_fields c) = true ->
+      nodup_str (map (fun d => rename (smap (c_name c)) (fd_name d)) (c_fields c)) = true ->
+      Forall (attr_ok re_match e c) attrs ->
+      (forall r, In r (c_required c) -> alist_has attrs r = true) ->
+      (forall d, In d (c_fields c) -> fd_default d <> None -> alist_has attrs (fd_name d) = true) ->
+      (forall d, In d (c_fields c) -> (fdepth (fd_field d) <= n)%nat) ->
+      ser_inst ei re_match e smap (S fuel) (c_name c) attrs = Some j ->
+      valid4 re_search D (S n) (fix_dialect (class_schema ei (smap (c_name c)) c)) j = true.
+  Proof. exact (class_complete ei re_match re_search re_match_search e D smap). Qed.
 End C08.
 
 Print Assumptions C08_wf.
+Print Assumptions C08_refs_resolve.
+Print Assumptions C08_wf_doc.
+Print Assumptions C08_class_complete.
 Print Assumptions C08_complete.
 Print Assumptions C08_complete_vset.
+
+(* ------------------------------------------------------------------ ties to the source (regenerated every run) *)
+(* Gen/SchemaGuards.v is rewritten from typedpy/json_schema/json_schema_mapping.py by harness/genmods/schema_guards.py
+   (abstract interpretation of the function bodies) before every build; these theorems state that what the source
+   says NOW is what the model above is about. *)
+
+(* EnumMapper.to_schema.adjust: the isinstance tests, in the order the source makes them *)
+Theorem C08_src_enum_adjust : forall is_enum is_prim by_value,
+    enum_adjust_gen is_enum is_prim by_value = enum_adjust is_enum is_prim by_value.
+Proof. exact src_enum_adjust. Qed.
+
+(* NumberMapper.to_schema.get_min / get_max, one row per concrete numeric class *)
+Theorem C08_src_get_min : forall k s c,
+    get_min k s c = interp_bound (minimum c) (get_min_gen k s (is_some (minimum c))).
+Proof. exact src_get_min. Qed.
+Theorem C08_src_get_max : forall k s c,
+    get_max k s c = interp_bound (maximum c) (get_max_gen k s (is_some (maximum c))).
+Proof. exact src_get_max. Qed.
+
+(* get_mapper's dispatch table *)
+Theorem C08_src_get_mapper : forall f,
+    alist_get schema_mapper_table (s2p (field_class f)) = option_map s2p (mapper_for f).
+Proof. exact src_get_mapper. Qed.
+
+(* no module-level state is written by the functions of the export module *)
+Theorem C08_src_stateless : schema_module_state = [].
+Proof. exact src_stateless. Qed.
+
+Print Assumptions C08_src_enum_adjust.
+Print Assumptions C08_src_get_min.
+Print Assumptions C08_src_get_max.
+Print Assumptions C08_src_get_mapper.
+Print Assumptions C08_src_stateless.
 
 (* ------------------------------------------------------------------ refutations of the full statements *)
 
@@ -91,19 +167,19 @@ Definition no_struct (_ : pystr) (_ : list (pystr * pyval)) : option pyval := No
 Definition tiny : num := NFlt 4835703278458517 (-82).     (* the double 1e-9 *)
 Example C08_complete_refuted_epsilon :
   let f := FNumber KFloat SPositive no_numc in
-  mappable f = true /\
+  mappable no_einfo f = true /\
   vset always [] f (PNum tiny) = Ok (PNum tiny) /\
-  ser always [] no_struct f (PNum tiny) = Some (PNum tiny) /\
-  valid4 always [] 50 (fix_dialect (fschema f)) (PNum tiny) = false.
+  ser no_einfo always [] no_struct f (PNum tiny) = Some (PNum tiny) /\
+  valid4 always [] 50 (fix_dialect (fschema no_einfo f)) (PNum tiny) = false.
 Proof. repeat split; vm_compute; reflexivity. Qed.
 
 Theorem C08_complete_refuted : ~ C08_complete_statement.
 Proof.
   intro H.
-  specialize (H always always [] [] no_struct (FNumber KFloat SPositive no_numc) (PNum tiny) (PNum tiny) (PNum tiny)
+  specialize (H no_einfo always always [] [] no_struct (FNumber KFloat SPositive no_numc) (PNum tiny) (PNum tiny) (PNum tiny)
                 (fun _ _ E => E) eq_refl eq_refl).
   assert (A : vset always [] (FNumber KFloat SPositive no_numc) (PNum tiny) = Ok (PNum tiny)) by (vm_compute; reflexivity).
-  assert (B : ser always [] no_struct (FNumber KFloat SPositive no_numc) (PNum tiny) = Some (PNum tiny)) by reflexivity.
+  assert (B : ser no_einfo always [] no_struct (FNumber KFloat SPositive no_numc) (PNum tiny) = Some (PNum tiny)) by reflexivity.
   specialize (H A B). vm_compute in H. discriminate H.
 Qed.
 Print Assumptions C08_complete_refuted.
@@ -112,7 +188,7 @@ Print Assumptions C08_complete_refuted.
 Example C08_wf_refuted_map_pattern_keys :
   let f := FMapKV (FString {| minLength := None; maxLength := None; pattern := Some 0%N |})
                   (FNumber KInteger SAny no_numc) no_sizec in
-  mappable f = true /\ wf4 [] (fix_dialect (fschema f)) = false.
+  mappable no_einfo f = true /\ wf4 [] (fix_dialect (fschema no_einfo f)) = false.
 Proof. split; vm_compute; reflexivity. Qed.
 
 (* "required": [] (a class without required fields) violates draft 4's stringArray (minItems 1) *)
@@ -123,7 +199,7 @@ Definition cls_no_required : classdef :=
 
 Theorem C08_wf_refuted : ~ C08_wf_statement.
 Proof.
-  intro H. specialize (H [] (fun _ => []) 3%nat cls_no_required eq_refl). vm_compute in H. discriminate H.
+  intro H. specialize (H no_einfo [] (fun _ => []) 3%nat cls_no_required eq_refl). vm_compute in H. discriminate H.
 Qed.
 Print Assumptions C08_wf_refuted.
 
@@ -141,10 +217,10 @@ Definition cls_t : classdef :=
 
 Example C08_complete_refuted_nested_wrapper :
   let env := [cls_w; cls_t] in
-  let doc := fix_doc (to_schema env (fun _ => []) 5 cls_t) in
+  let doc := fix_doc (to_schema no_einfo env (fun _ => []) 5 cls_t) in
   let inst := [(s2p "w", PStruct (s2p "W") [(s2p "a", PNum (NInt 1))]); (s2p "n", PNum (NInt 2))] in
   wf_doc doc = true /\
-  exists j, ser_top always env (fun _ => []) 5 cls_t inst = Some j /\
+  exists j, ser_top no_einfo always env (fun _ => []) 5 cls_t inst = Some j /\
             valid4 always (snd doc) 50 (fst doc) j = false.
 Proof.
   split; [vm_compute; reflexivity|].
@@ -167,16 +243,15 @@ Definition ex_value : pyval :=
   PDict [(PStr (s2p "k"), PList [PNum (NInt 95); PStr (s2p "yy")])].
 
 Example C08_nonvacuous :
-  cfrag ex_field = true /\ fclean ex_field = true /\
+  cfrag no_einfo ex_field = true /\ fclean no_einfo ex_field = true /\
   docb always [] ex_field ex_value = Some ex_value /\
-  ser always [] no_struct ex_field ex_value = Some ex_value /\
-  valid4 always [] (fdepth ex_field) (fix_dialect (fschema ex_field)) ex_value = true /\
+  ser no_einfo always [] no_struct ex_field ex_value = Some ex_value /\
+  valid4 always [] (fdepth ex_field) (fix_dialect (fschema no_einfo ex_field)) ex_value = true /\
   (* at the exclusive maximum the value is rejected by the field, and the document by the schema *)
-  valid4 always [] 10 (fix_dialect (fschema ex_field)) (PDict [(PStr (s2p "k"), PList [PNum (NInt 100)])]) = false /\
-  wf_doc (fix_doc (to_schema [cls_w; cls_t] (fun _ => []) 5 cls_t)) = true.
+  valid4 always [] 10 (fix_dialect (fschema no_einfo ex_field)) (PDict [(PStr (s2p "k"), PList [PNum (NInt 100)])]) = false /\
+  wf_doc (fix_doc (to_schema no_einfo [cls_w; cls_t] (fun _ => []) 5 cls_t)) = true.
 Proof. repeat split; vm_compute; reflexivity. Qed.
 
-(* ======================================================================================================
    the tie to the source of the per-field schema mappers (generated layer), appended from the contributor's file *)
 (* Property C08 — the tie of the hand-written model Schema/ToSchema.v (fschema, mappable), on which the C08
    theorems are proved, to the CURRENT text of typedpy/json_schema/json_schema_mapping.py.
@@ -347,3 +422,70 @@ Example C08_src_satisfiable :
   convert_to_schema ex_s2s ex_store 6 (field_obj ex_pat_text ex_field) PNone
   = Ok (sch_json ex_pat_text (fschema ex_field)).
 Proof. exact side_conditions_satisfiable. Qed.
+=======
+(* ------------------------------------------------------------------ non-vacuity of the class-level theorems *)
+
+Definition fd (n : string) (f : field) (d : option pyval) : fdecl :=
+  {| fd_name := s2p n; fd_field := f; fd_immutable := false; fd_default := d |}.
+Definition cls (n : string) (fs : list fdecl) (req : list string) (add : bool) : classdef :=
+  {| c_name := s2p n; c_ancestors := []; c_fields := fs; c_required := map s2p req; c_additional := add;
+     c_ignore_none := false; c_immutable := false; c_hook := HookNone |}.
+
+(* Top -> Mid -> Leaf (Leaf reachable only through Mid), an IntEnum field exported by name, a renamed key, a default *)
+Definition ei_prio : einfo_t :=
+  fun c => if pystr_eqb c (s2p "Prio") then {| eo_mixin := MixInt; eo_by_value := false |} else no_einfo c.
+Definition prio_field : field :=
+  FEnumCls (s2p "Prio") [(s2p "LOW", PNum (NInt 1)); (s2p "HIGH", PNum (NInt 2))].
+Definition cls_leaf := cls "Leaf" [fd "v" (FNumber KInteger SAny no_numc) None; fd "p" prio_field None] ["p"; "v"] false.
+Definition cls_mid := cls "Mid" [fd "leaf" (FClassRef (s2p "Leaf")) None; fd "n" (FNumber KInteger SAny no_numc) None] ["leaf"; "n"] false.
+Definition cls_top := cls "Top" [fd "mid" (FSeqEach SeqList (FClassRef (s2p "Mid")) no_sizec false) None;
+                                 fd "x_y" (FString no_strc) (Some (PStr (s2p "dflt")))] ["mid"] false.
+Definition env3 : env := [cls_leaf; cls_mid; cls_top].
+Definition smap3 : pystr -> renames :=
+  fun c => if pystr_eqb c (s2p "Top") then [(s2p "x_y", s2p "xY")] else [].
+
+Example C08_class_level_nonvacuous :
+  closed env3 5 any_class (class_refs cls_top) = true /\
+  schema_clean ei_prio env3 smap3 5 cls_top = true /\
+  length (snd (to_schema ei_prio env3 smap3 5 cls_top)) = 2%nat /\
+  (* the IntEnum is exported by name *)
+  fschema ei_prio prio_field = Sch [KEnum [PStr (s2p "LOW"); PStr (s2p "HIGH")]] /\
+  (* a class with an empty "required" is not clean (its export is ill-formed), yet its $refs resolve *)
+  (let bad := cls "Bad" [fd "m" (FClassRef (s2p "Mid")) None] [] true in
+   schema_clean ei_prio env3 smap3 5 bad = false /\
+   wf_doc (fix_doc (to_schema ei_prio env3 smap3 5 bad)) = false /\
+   doc_refs_resolve (fix_doc (to_schema ei_prio env3 smap3 5 bad)) = true).
+Proof. repeat split; vm_compute; reflexivity. Qed.
+
+(* hypotheses of C08_class_complete on a class with a renamed key, a default and an IntEnum field *)
+Definition cls_flat := cls "Flat" [fd "p" prio_field None; fd "x_y" (FString no_strc) (Some (PStr (s2p "dflt")));
+                                   fd "l" (FSeqEach SeqList (FNumber KInteger SPositive no_numc) no_sizec false) None]
+                           ["p"] false.
+Definition smap_flat : pystr -> renames := fun _ => [(s2p "x_y", s2p "xY")].
+Definition flat_attrs : list (pystr * pyval) :=
+  [(s2p "p", PEnum (s2p "Prio") (s2p "HIGH") (PNum (NInt 2))); (s2p "x_y", PStr (s2p "dflt"));
+   (s2p "l", PList [PNum (NInt 3)])].
+
+Example C08_class_complete_nonvacuous :
+  find_class [cls_flat] (c_name cls_flat) = Some cls_flat /\
+  wrapper_form cls_flat = false /\
+  forallb (fun d => cfrag ei_prio (fd_field d)) (c_fields cls_flat) = true /\
+  nodup_str (map (fun d => rename (smap_flat (c_name cls_flat)) (fd_name d)) (c_fields cls_flat)) = true /\
+  Forall (attr_ok always [cls_flat] cls_flat) flat_attrs /\
+  forallb (fun r => alist_has flat_attrs r) (c_required cls_flat) = true /\
+  ser_inst ei_prio always [cls_flat] smap_flat 3 (c_name cls_flat) flat_attrs =
+    Some (PDict [(PStr (s2p "p"), PStr (s2p "HIGH")); (PStr (s2p "xY"), PStr (s2p "dflt"));
+                 (PStr (s2p "l"), PList [PNum (NInt 3)])]) /\
+  (* and the schema does reject a document that lacks the defaulted (hence required) key *)
+  valid4 always [] 5 (fix_dialect (class_schema ei_prio (smap_flat (c_name cls_flat)) cls_flat))
+         (PDict [(PStr (s2p "p"), PStr (s2p "HIGH"))]) = false.
+Proof.
+  repeat split; try (vm_compute; reflexivity).
+  repeat constructor.
+  - exists (fd "p" prio_field None), (PStr (s2p "HIGH")). split; vm_compute; reflexivity.
+  - exists (fd "x_y" (FString no_strc) (Some (PStr (s2p "dflt")))), (PStr (s2p "dflt")). split; vm_compute; reflexivity.
+  - exists (fd "l" (FSeqEach SeqList (FNumber KInteger SPositive no_numc) no_sizec false) None), (PList [PNum (NInt 3)]).
+    split; vm_compute; reflexivity.
+Qed.
+
+(* ===============================================================================================
